@@ -3,6 +3,7 @@
 From Coq Require Import ZArith List Bool Lia.
 Import ListNotations.
 From XO Require Import Slots Strides BufOps Types Format Check LayoutProofs RoundTrip Update UpdateSize UpdateFrame UpdateAt PartExtent.
+From XO Require Import Update PartExtent PartExtentExact.
 From XO Require Import AllocSpec BufOps Types Format.
 From XO Require CopyBytes HeapCompose.
 From XO Require CopyBytes DecLocal.
@@ -85,6 +86,12 @@ Theorem C03_construction_keeps_live_objects : forall s s' size al o m m1 bs t of
   has_refs t = false -> dec t m off = Some (v, sz) ->
   dec t (wr m1 o bs) off = Some (v, sz).
 Proof. exact HeapCompose.construction_keeps_live_objects. Qed.
+(* EXACT COPIES (an object of the element's class and of exactly its size is copied as it is): every part that is not
+   strictly inside the assigned element -- the element itself, everything above and beside it -- keeps its position
+   and the length of its image; only the parts inside take the source's layout *)
+Theorem C03_exact_copy_moves_only_what_is_inside : forall t v p x v' img, assign_exact t v p x = Some v' -> enc t v = Some img ->
+  forall q, ~ (exists r, r <> [] /\ q = p ++ r) -> part_extent t v' q = part_extent t v q.
+Proof. exact assign_exact_moves_only_inside. Qed.
 Theorem C03_slot_rounding : forall n, n <= slot n < n + 8 /\ slot n mod 8 = 0.
 Proof. exact slot_spec. Qed.
 Print Assumptions C03_write_frame.
@@ -101,3 +108,4 @@ Print Assumptions C03_bytes_outside_the_extent_are_irrelevant.
 Print Assumptions C03_decoder_reads_own_extent_only.
 Print Assumptions C03_decoded_size.
 Print Assumptions C03_construction_keeps_live_objects.
+Print Assumptions C03_exact_copy_moves_only_what_is_inside.
